@@ -9,6 +9,26 @@ HOOK_COMMITS = subprocess.run(
 TECH = "deterministic simulation with fault injection: seeded search over generated histories/schedules/fault sequences against the real code under a simulated clock, invariant + history oracles, tape shrinking, replay files"
 
 CHECKS = {
+    "C01": dict(
+        cat="exploration", ref="DESIGN.md §5 C01",
+        text="Seeded exploration with an adversary that holds no honest secret key (full wire tap, own keys, injection from any source address): random packets and forged handshakes claiming genuine ids with every combination of attached record, signer, ephemeral key and source address, interleaved with genuine traffic and three states of the victim's knowledge. History oracle: every identity effect (Established, Request, Response, UnverifiableEnr, recipient-side session keys from the key log) must be justified by a delivered handshake whose id-signature verifies under the claimed id's registered public key over one of the node's own WHOAREYOUs to that address, or by the node's own dial of that contact.",
+        note="Trusted: the crate's ECDSA id-signature verification (used by the oracle through the facade), the id -> public key registry of the harness, key log hook H6.",
+        technique="deterministic simulation (W-H handler world) with an adversary model: forged-handshake injection, justification oracle over the recorded history"),
+    "C02": dict(
+        cat="fault_enumeration", ref="DESIGN.md §5 C02",
+        text="Bounded fault enumeration plus seeded exploration on real handler sessions: for 6 base exchanges x datagram 0..9 every single-bit flip, every truncation length and a 1-byte insertion at every offset replaces the genuine datagram (198000 cases: all in the thorough tier, a fixed-stride sample in the quick tier); exploration adds header/body splices, misdelivery, re-masking for another node, spoofed sources, duplicates. Every message handed to an application must be carried by an unmodified datagram of the attributed peer's real handler addressed to this receiver, presented from the attributed address and decrypting (sender's logged key) to exactly that message; a panic in the receive path is a violation.",
+        note="Trusted: wire tap origin tags, key log hook H6. Attribution address = address the carrier was presented from (a relay that rewrites the source of a whole handshake is indistinguishable from a NAT).",
+        technique="deterministic simulation (W-H handler world): enumerated single-datagram corruption + seeded corruption faults, carrier oracle over the inbound history"),
+    "C03": dict(
+        cat="fault_enumeration", ref="DESIGN.md §5 C03",
+        text="Bounded fault enumeration plus seeded exploration of replays: for 6 base exchanges every recorded handshake/WHOAREYOU datagram x every later point of the exchange (incl. after expiry and during a later exchange) x {original source, other address, towards another node} is re-injected (2016 cases, all executed in both tiers). Oracle: every recipient-side session creation or re-key (key log) consumes one fresh, unexpired, not yet consumed challenge whose data the delivered handshake's signature verifies against; every new handshake a node emits follows a WHOAREYOU from that address echoing the nonce of a datagram it sent there; at most one handshake per request (read from the handshake with the logged key); id-nonces never repeat.",
+        note="Trusted: the crate's id-signature verification for attributing an accepted handshake to its challenge; challenge expiry = request_timeout after the WHOAREYOU or after the last handshake that may have re-armed it.",
+        technique="deterministic simulation (W-H handler world): enumerated replay injection + seeded exploration, challenge-consumption ledger"),
+    "C15": dict(
+        cat="exploration", ref="DESIGN.md §5 C15",
+        text="Seeded exploration of idle gaps around session_timeout (2-120 s of simulated time per gap) with traffic in either direction, and of session-cache capacity 1-5 with up to 7 real peers: every encrypt/accept at the victim is attributed to a session via the key log and its idle time checked; after sequential exchanges the victim probes all peers in recency order and exactly the `capacity` most recent ones must still have a session.",
+        note="Trusted: key log hook H6; 'use' = encrypt or accept; sequential exchanges make recency unambiguous.",
+        technique="deterministic simulation (W-H handler world): simulated clock gaps around the TTL, per-session idle-time oracle, recency-ordered probe"),
     "C04": dict(
         cat="exploration", ref="DESIGN.md §5 C04",
         text="Seeded exploration of whole-handler executions: 2-4 real handlers on a harness-owned virtual network under a simulated clock, concurrent requests, per-run fault profile (drop, duplicate, delay/reorder, partition, slow/silent application, peer restart, injected undecryptable packet, clock jump); history oracle: never two terminals or an event after the terminal, a terminal for every request within a calibrated bound after the last fault (bounded liveness), at most 1+retries transmissions per request and session key (wire tap + key log), Timeout only if some request to that peer was outstanding for a full timeout.",
